@@ -20,6 +20,8 @@ var VerifHarnesses = map[string]func(){
 	"VerifC02Spellings": VerifC02Spellings,
 	"VerifC02CookieVerbatim": VerifC02CookieVerbatim,
 	"VerifC02LongValues": VerifC02LongValues,
+	"VerifC02SessionSpellings": VerifC02SessionSpellings,
+	"VerifC02SpareBits": VerifC02SpareBits,
 }
 
 func verifRealFraming() {
@@ -237,4 +239,59 @@ func VerifC02LongValues() {
 		zz.Reach("opened")
 		zz.Assert(verifSameSession(s, out), "C02.sealing then opening a large session returns exactly the original")
 	}
+}
+
+// VerifC02SessionSpellings: through the sessions API (UnmarshalSession, which cookies and
+// authorization codes go through): a genuine sealed session with white space or line breaks
+// added around it is another string and is refused, yielding no session.
+func VerifC02SessionSpellings() {
+	verifRealFraming()
+	c1 := verifCipher(verifKey("key1"))
+	s := verifAnySession("sess", 0)
+	t1, e1 := MarshalSession(s, c1)
+	zz.Assert(e1 == nil, "C02.sealing a session succeeds")
+	x := t1
+	switch zz.Choose("respelling", 6) {
+	case 0:
+		x = t1 + " "
+	case 1:
+		x = "\t" + t1
+	case 2:
+		x = t1 + "\n"
+	case 3:
+		x = "\r\n" + t1
+	case 4:
+		x = " " + t1 + " "
+	case 5:
+		zz.Reach("unchanged")
+	}
+	out, err := UnmarshalSession(x, c1)
+	zz.ReachIf(x != t1, "respelled")
+	zz.Assert(zz.Or(x == t1, zz.And(err != nil, out == nil)), "C02.a sealed session with white space or line breaks added is refused and yields no session")
+	zz.Assert(zz.Implies(x == t1, zz.And(err == nil, verifSameSession(s, out))), "C02.the sealed session itself opens")
+}
+
+// VerifC02SpareBits: a genuine sealed string whose last character is re-spelled in its
+// unused low bits (same bytes for a lenient base64 decoder) is another string: refused.
+func VerifC02SpareBits() {
+	verifRealFraming()
+	c1 := verifCipher(verifKey("key1"))
+	id := zz.NondetString("state1.id")
+	var v1 *verifState
+	t1, variant := "", ""
+	// natively: lengthen the value until its sealed form has spare bits (length not a multiple of 4)
+	for i := 0; i < 8 && variant == ""; i++ {
+		v1 = &verifState{SessionID: id + strings.Repeat("x", i), RedirectURI: "/"}
+		var err error
+		t1, err = c1.Marshal(v1)
+		zz.Assert(err == nil, "C02.sealing succeeds")
+		variant = zz.B64SpareBitsVariant(t1)
+	}
+	zz.Assume(variant != "")
+	out := &verifState{}
+	err := c1.Unmarshal(variant, out)
+	zz.Reach("respelled")
+	zz.Assert(err != nil, "C02.a sealed string re-spelled in the spare bits of its last character is refused")
+	out2 := &verifState{}
+	zz.Assert(zz.And(c1.Unmarshal(t1, out2) == nil, *out2 == *v1), "C02.the sealed string itself opens")
 }
